@@ -161,9 +161,22 @@ class Resolver:
                     if isinstance(it.optional_vars, ast.Name):
                         out.setdefault(it.optional_vars.id, []).append(('with', it.context_expr))
             elif isinstance(n, (ast.For, ast.AsyncFor)):
+                it = n.iter
+                if isinstance(it, ast.Call) and isinstance(it.func, ast.Name) and it.func.id in ('tuple', 'list', 'sorted') and it.args:
+                    it = it.args[0]
+                val_target = None
+                if isinstance(it, ast.Call) and isinstance(it.func, ast.Attribute):
+                    if it.func.attr == 'items' and isinstance(n.target, ast.Tuple) and len(n.target.elts) == 2 \
+                            and isinstance(n.target.elts[1], ast.Name):
+                        val_target = (n.target.elts[1].id, it.func.value)
+                    elif it.func.attr == 'values' and isinstance(n.target, ast.Name):
+                        val_target = (n.target.id, it.func.value)
                 for e in ast.walk(n.target):
                     if isinstance(e, ast.Name):
-                        out.setdefault(e.id, []).append(None)
+                        if val_target and e.id == val_target[0]:
+                            out.setdefault(e.id, []).append(('dictval', val_target[1]))
+                        else:
+                            out.setdefault(e.id, []).append(None)
             elif isinstance(n, ast.ExceptHandler) and n.name:
                 out.setdefault(n.name, []).append(None)
             elif isinstance(n, ast.NamedExpr) and isinstance(n.target, ast.Name):
@@ -183,6 +196,8 @@ class Resolver:
             if isinstance(v, tuple):
                 if v[0] == 'ann':
                     out.extend(self.ann_types(fi.module, v[1]))
+                elif v[0] == 'dictval':
+                    out.extend(self.dict_value_types(fi, v[1], _depth + 1))
                 elif v[0] == 'with':
                     ts = self.type_of(fi, v[1], _depth + 1)
                     for t in ts:
@@ -195,6 +210,19 @@ class Resolver:
             out.extend(self.type_of(fi, v, _depth + 1))
         if not out and fi.outer is not None:
             return self.local_types(fi.outer, name, _depth + 1)
+        return _uniq(out)
+
+    def dict_value_types(self, fi, expr, _depth=0):
+        """Types stored as values of the dict `self.<attr>` (from `self.attr[k] = v` stores)."""
+        out = []
+        if isinstance(expr, ast.Attribute) and isinstance(expr.value, ast.Name) and expr.value.id == 'self' and fi.cls is not None:
+            for c in self.repo.mro(fi.cls):
+                for meth in c.methods.values():
+                    for n in walk_no_nested(meth.node):
+                        if isinstance(n, ast.Assign) and any(
+                                isinstance(t, ast.Subscript) and isinstance(t.value, ast.Attribute) and t.value.attr == expr.attr
+                                and isinstance(t.value.value, ast.Name) and t.value.value.id == 'self' for t in n.targets):
+                            out.extend(self.type_of(meth, n.value, _depth + 1))
         return _uniq(out)
 
     def attr_types(self, ci, attr, _depth=0):
